@@ -15,7 +15,7 @@ ASSUMPTIONS = [
     "two numeric formats of equal precision print the same digits (oracle); only formats of equal precision are paired: per column the two "
     "configurations use the same conversion and precision (%.3f with %9.3f / %-9.3f / %+.3f / %09.3f, fmt with an equal column_fmt entry)",
     "the reader side of the equality is proved for the whole file on the domain file_hypsb of the file round trip (C12_file_*) for pairs "
-    "that use the same format string per column; the domain is evaluated by the model on every pair (histogram) and lasio must agree "
+    "that use the same format string per column; the domain is evaluated by the model on every such pair (histogram) and lasio must agree "
     "there; outside that domain, and for equal precision spelled differently, it rests on the oracle and the correspondence",
     "spacers made of blanks/tabs are the domain of the writer model and of file_hypsb; configurations with another spacer (',', ';', '') go "
     "through the implementation-side oracle only (known finding nonblank-spacer)",
@@ -373,6 +373,8 @@ def run(ctx):
         # tie of the whole-file theorems to the code: where the model finds BOTH written forms of a pair in the domain file_hypsb and
         # the two configurations use the same format string per column (same_formats), the theorems say the two re-read contents are
         # equal apart from ~Version: lasio must agree
+        # (evaluated for the pairs with the same format strings only: the others are outside same_formats whatever file_hypsb says)
+        pairs = [p for p in pairs if p[1]]
         dom_idx = sorted({k for p in pairs for k in (p[0], p[0] + 1)})
         out_dom, err2 = lib.run_coq_cases("c12dom", [], RUN_DOMAIN, [(cases[k][0], "D") for k in dom_idx], shard=8)
         if err2:
@@ -380,9 +382,8 @@ def run(ctx):
         else:
             outside = {dom_idx[j] for j in out_dom}
             in_dom = [p for p in pairs if p[0] not in outside and (p[0] + 1) not in outside]
-            hist["pairs_both_in_file_hypsb"] = len(in_dom)
-            hist["pairs_in_theorem_domain"] = sum(1 for p in in_dom if p[1])
-            hist["pairs_in_file_hypsb_formats_spelled_differently"] = sum(1 for p in in_dom if not p[1])
+            hist["pairs_with_same_format_strings"] = len(pairs)
+            hist["pairs_in_theorem_domain"] = len(in_dom)
             for p in in_dom:
                 if p[1] and p[2]:
                     res.mismatches.append({"base": p[3], "payload": p[4],
